@@ -4,6 +4,7 @@ import (
 	"bytes"
 	"fmt"
 	"go/ast"
+	"go/constant"
 	"go/printer"
 	"go/token"
 	"sort"
@@ -36,18 +37,115 @@ func facts(pkgs map[string]*pkgInfo) string {
 			names = append(names, n)
 		}
 		sort.Strings(names)
-		var sends, recvs, gos []string
+		var sends, recvs, gos, cfguses []string
 		for _, n := range names {
 			fd := pi.funcs[n]
 			if fd.Body == nil {
 				continue
 			}
+			// every read/write of a Config field through conn.cfg / cfg, per function
+			seen := map[string]bool{}
+			ast.Inspect(fd.Body, func(x ast.Node) bool {
+				if se, ok := x.(*ast.SelectorExpr); ok {
+					base := exprText(pi, se.X)
+					if base == "conn.cfg" || base == "cfg" {
+						k := n + "." + se.Sel.Name
+						if !seen[k] {
+							seen[k] = true
+							cfguses = append(cfguses, fmt.Sprintf("(%s, %s)", coqStr(n), coqStr(se.Sel.Name)))
+						}
+					}
+				}
+				return true
+			})
 			flow := skeleton(pi, fd, n, &sends, &recvs, &gos)
 			fmt.Fprintf(&b, "Definition flow_%s_%s : list string :=\n  [%s].\n", pn, coqIdent(n), strings.Join(flow, "; "))
 		}
 		fmt.Fprintf(&b, "\nDefinition chan_sends_%s : list (string * string) :=\n  [%s].\n", pn, strings.Join(sends, "; "))
 		fmt.Fprintf(&b, "Definition chan_recvs_%s : list (string * string) :=\n  [%s].\n", pn, strings.Join(recvs, "; "))
-		fmt.Fprintf(&b, "Definition go_stmts_%s : list (string * string) :=\n  [%s].\n\n", pn, strings.Join(gos, "; "))
+		fmt.Fprintf(&b, "Definition go_stmts_%s : list (string * string) :=\n  [%s].\n", pn, strings.Join(gos, "; "))
+		fmt.Fprintf(&b, "Definition cfg_uses_%s : list (string * string) :=\n  [%s].\n\n", pn, strings.Join(cfguses, "; "))
+	}
+	// every use of the logging package: (function, level, const-folded format, argument expressions)
+	for _, pn := range []string{"client", "state"} {
+		pi := pkgs[pn]
+		if pi == nil {
+			continue
+		}
+		var names []string
+		for n := range pi.funcs {
+			if strings.HasPrefix(n, "Verif") || strings.Contains(n, ".Verif") {
+				continue
+			}
+			names = append(names, n)
+		}
+		sort.Slice(names, func(i, j int) bool {
+			a, c := pi.funcs[names[i]], pi.funcs[names[j]]
+			fa, fc := pi.pkg.Fset.Position(a.Pos()), pi.pkg.Fset.Position(c.Pos())
+			if fa.Filename != fc.Filename {
+				return fa.Filename < fc.Filename
+			}
+			return fa.Offset < fc.Offset
+		})
+		var calls []string
+		for _, n := range names {
+			fd := pi.funcs[n]
+			if fd.Body == nil {
+				continue
+			}
+			handled := map[ast.Node]bool{}
+			ast.Inspect(fd.Body, func(x ast.Node) bool {
+				if ce, ok := x.(*ast.CallExpr); ok {
+					if se, ok := ce.Fun.(*ast.SelectorExpr); ok {
+						if id, ok := se.X.(*ast.Ident); ok && id.Name == "logging" {
+							handled[se] = true
+							lvl := se.Sel.Name
+							switch lvl {
+							case "Debug", "Info", "Warn", "Error":
+								format := "<<nonconst>>"
+								var args []string
+								if len(ce.Args) > 0 {
+									if tv, ok := pi.pkg.TypesInfo.Types[ce.Args[0]]; ok && tv.Value != nil && tv.Value.Kind() == constant.String {
+										format = constant.StringVal(tv.Value)
+									}
+									for _, a := range ce.Args[1:] {
+										args = append(args, coqStr(exprText(pi, a)))
+									}
+								}
+								calls = append(calls, fmt.Sprintf("(%s, %s, %s, [%s])", coqStr(n), coqStr(lvl), coqStr(format), strings.Join(args, "; ")))
+							default:
+								calls = append(calls, fmt.Sprintf("(%s, %s, %s, [])", coqStr(n), coqStr("OTHER"), coqStr(exprText(pi, ce))))
+							}
+						}
+					}
+				}
+				if se, ok := x.(*ast.SelectorExpr); ok && !handled[se] {
+					if id, ok := se.X.(*ast.Ident); ok && id.Name == "logging" {
+						calls = append(calls, fmt.Sprintf("(%s, %s, %s, [])", coqStr(n), coqStr("OTHER"), coqStr(exprText(pi, se))))
+					}
+				}
+				return true
+			})
+		}
+		fmt.Fprintf(&b, "Definition log_calls_%s : list (string * string * string * list string) :=\n  [%s].\n\n", pn, strings.Join(calls, ";\n   "))
+	}
+	// the defaults NewConfig installs: (field, value expression) of its composite literal
+	if pi := pkgs["client"]; pi != nil {
+		if fd := pi.funcs["NewConfig"]; fd != nil && fd.Body != nil {
+			var kv []string
+			ast.Inspect(fd.Body, func(x ast.Node) bool {
+				if cl, ok := x.(*ast.CompositeLit); ok && exprText(pi, cl.Type) == "Config" {
+					for _, e := range cl.Elts {
+						if k, ok := e.(*ast.KeyValueExpr); ok {
+							kv = append(kv, fmt.Sprintf("(%s, %s)", coqStr(exprText(pi, k.Key)), coqStr(exprText(pi, k.Value))))
+						}
+					}
+					return false
+				}
+				return true
+			})
+			fmt.Fprintf(&b, "Definition newconfig_defaults : list (string * string) :=\n  [%s].\n\n", strings.Join(kv, "; "))
+		}
 	}
 	// package-level variable initialisers (e.g. tagsReplacer, handler tables): literal digests
 	for _, pn := range []string{"client", "state"} {
